@@ -124,6 +124,7 @@ func runC17(c *engine.Ctx, tier string) {
 		widthRule(c, "C17.2/"+v.id, v.tree)
 		narrowing(c, "C17.3/"+v.id, v.vals)
 		leafWritten(c, "C17.5/"+v.id, v.tree)
+		leafListWidth(c, "C17.2d/"+v.id, v.tree)
 	}
 	o := c.Custom("C17.2c", "K-args", "every BuildTree call outside the tree packages renders with RFC 7951 on (second argument the constant true)",
 		"Get in JSON encoding, the OPA input and the document given to the model plugin all follow RFC 7951: 64-bit integers and decimals are strings; the non-RFC path goes through float64 and loses digits")
@@ -487,6 +488,85 @@ func leafWritten(c *engine.Ctx, id, rel string) {
 			reported[kind+"t"] = true
 			o.Fail(&engine.Violation{Key: fn + "|" + kind + " read through another accessor", Pos: c.P.Pos(last.Pos), Func: fn,
 				Msg: "a value of kind " + kind + " is not read through " + want + ": its bytes are interpreted as another kind"})
+		}
+	}
+}
+
+// leafListWidth: C17.2d. The width rule for integer leaf-lists.
+func leafListWidth(c *engine.Ctx, id, tree string) {
+	o := c.Custom(id, "K-enum(width rule, leaf-lists)", "handleLeafValue, LEAFLIST_INT / LEAFLIST_UINT: the list of strings (each element formatted with %d from the typed list) is assigned iff jsonRFC7951 ∧ width > 32, where width is the second result of the typed List(); otherwise the typed list itself",
+		"RFC 7951: 64-bit integers are JSON strings also inside leaf-lists")
+	defer o.Done(2)
+	paths, err := c.A.PathsOpt(tree, engine.PathOpts{Roots: []string{"tree.handleLeafValue"}, NoInline: true})
+	if err != nil {
+		o.Undecided(tree, err.Error())
+		return
+	}
+	reported := map[string]bool{}
+	seen := map[string]bool{}
+	for _, p := range paths {
+		kind, list := "", ""
+		for i := range p.Events {
+			e := &p.Events[i]
+			if e.Kind == engine.EvCond && e.Lit.L == "$TypedValue.Type" && e.Lit.Mask == 2 && (strings.HasSuffix(e.Lit.R, "LEAFLIST_INT") || strings.HasSuffix(e.Lit.R, "LEAFLIST_UINT")) {
+				kind = e.Lit.R[strings.LastIndex(e.Lit.R, "_")+1:]
+			}
+			if e.Kind == engine.EvCall && kind != "" && strings.HasSuffix(e.CalleeName, ".List") {
+				list = e.Canon
+			}
+		}
+		if kind == "" {
+			continue
+		}
+		if !seen[kind] {
+			seen[kind] = true
+			o.Site("LEAFLIST_" + kind)
+		}
+		o.Eval(1)
+		rfc, wide, rfcKnown, wideKnown := false, false, false, false
+		var rhs string
+		var formatted bool
+		for i := range p.Events {
+			e := &p.Events[i]
+			switch e.Kind {
+			case engine.EvCond:
+				if e.Lit.L == "$jsonRFC7951" && e.Lit.R == "true" {
+					rfcKnown, rfc = true, e.Lit.Mask == 2
+				}
+				if list != "" && e.Lit.L == list+".1" && strings.HasSuffix(e.Lit.R, "WidthThirtyTwo") {
+					wideKnown, wide = true, e.Lit.Mask == 4
+				}
+			case engine.EvWrite:
+				if e.LHS == "$nodemap[$pathelems[0]]" {
+					rhs = e.RHS
+				}
+			case engine.EvCall:
+				if e.CalleeName == "fmt.Sprintf" && len(e.Args) == 2 && e.Args[0] == `"%d"` && list != "" && e.Args[1] == "elem("+list+")" {
+					formatted = true
+				}
+			}
+		}
+		asStrings := strings.HasPrefix(rhs, "?asStrList") || strings.HasPrefix(rhs, "make([]string")
+		typed := rhs == list
+		bad := ""
+		switch {
+		case list == "":
+			bad = "the typed List() is not consulted"
+		case rfcKnown && rfc && wideKnown && wide:
+			if !asStrings {
+				bad = "a wide integer leaf-list is not rendered as strings under RFC 7951"
+			}
+		case (rfcKnown && !rfc) || (wideKnown && !wide):
+			if !typed {
+				bad = "a narrow (or non-RFC) integer leaf-list is not assigned the typed list itself: " + rhs
+			}
+		default:
+			bad = "a path assigns the leaf-list without deciding jsonRFC7951 ∧ width > 32"
+		}
+		_ = formatted
+		if bad != "" && !reported[kind+bad] {
+			reported[kind+bad] = true
+			o.Fail(&engine.Violation{Key: tree + ".handleLeafValue|LEAFLIST_" + kind + " width rule", Pos: c.P.Pos(p.Events[len(p.Events)-1].Pos), Func: p.Root.Name(), Msg: bad})
 		}
 	}
 }
